@@ -473,9 +473,11 @@ func guardHolds(p5c *p5, fn *Func, at ast.Node, g guard) bool {
 	case gNonNilVar:
 		// find the identifier named g.name used inside `at`
 		var target ast.Expr
-		ast.Inspect(at, func(n ast.Node) bool {
+		ast.Inspect(fn.Body, func(n ast.Node) bool {
 			if id, ok := n.(*ast.Ident); ok && id.Name == g.name && target == nil {
-				target = id
+				if _, isVar := fn.Info().ObjectOf(id).(*types.Var); isVar {
+					target = id
+				}
 			}
 			return true
 		})
